@@ -514,7 +514,9 @@ def r1_key_normalisation(rep, src):
     rep.saw_func(finit)
     for label, pairs, worder, wvals in (
             ('pairs with a key repeated exactly around a case variant', [('Alpha', '1'), ('ALPHA', '2'), ('Beta', '3'), ('Alpha', '4')], ['Alpha', 'Beta'], {'Alpha': '4', 'Beta': '3'}),
-            ('pairs with distinct keys', [('Beta', '1'), ('Alpha', '2')], ['Beta', 'Alpha'], {'Beta': '1', 'Alpha': '2'})):
+            ('pairs with distinct keys', [('Beta', '1'), ('Alpha', '2')], ['Beta', 'Alpha'], {'Beta': '1', 'Alpha': '2'}),
+            # (a field with an empty value is a field: copy() and Deb822(mapping) go through this loop)
+            ('pairs with an empty value', [('Beta', ''), ('Alpha', '2'), ('Gamma', '')], ['Beta', 'Alpha', 'Gamma'], {'Beta': '', 'Alpha': '2', 'Gamma': ''})):
         heap, me0, d0, lst0, table0 = world()
         heap.hooks['.items'] = items_hook
         heap.hooks['_AutoDecoder'] = lambda it, a, k: it.h.alloc('Decoder', {})
@@ -605,6 +607,41 @@ def r5_copy_protocol(rep, src):
                      where='%s:%d' % (mod.relpath, stores[0].lineno))
     if n < 1:
         raise AnalysisError('no class with weak references found in _util (the linked list changed?)')
+    # a class that keeps one of those containers NEXT TO a table of its own (the key set: a dictionary from key to list node, and the
+    # list): the container is rebuilt by its copy protocol with new nodes, a table copied by the default protocol refers to copies
+    # of the old ones -- the two halves of the copy no longer belong together (a deletion in the copy unlinks a node of nobody's
+    # list; the copy's order still names the key).  Such a class says itself how it is copied.
+    PROT = ('__deepcopy__', '__reduce__', '__reduce_ex__', '__getstate__')
+    rebuilt = [c2 for c2 in mod.classes if any(mod.method(c2, m_) is not None for m_ in PROT)]          # (defined or inherited from a class of the module)
+    n2 = 0
+    for cname in sorted(mod.classes):
+        init = mod.funcs.get(cname + '.__init__')
+        if init is None:
+            continue
+        inner, tables = [], []
+        for st in ast.walk(init.node):
+            if isinstance(st, (ast.Assign, ast.AnnAssign)):
+                tgt = st.targets[0] if isinstance(st, ast.Assign) else st.target
+                v = st.value
+                if not (isinstance(tgt, ast.Attribute) and norm(tgt.value) == 'self' and v is not None):
+                    continue
+                if isinstance(v, ast.Call) and isinstance(v.func, ast.Name) and v.func.id in rebuilt and v.func.id != cname:
+                    inner.append((tgt.attr, v.func.id))
+                elif isinstance(v, (ast.Dict, ast.List, ast.Set)) or (isinstance(v, ast.Call) and norm(v.func) in ('dict', 'list', 'set')):
+                    tables.append(tgt.attr)
+        if not inner or not tables:
+            continue
+        n2 += 1
+        what = 'a container kept next to a table of its nodes is copied by a protocol of the owning class'
+        if any(mod.method(cname, m_) is not None for m_ in PROT):
+            rep.ok('C09.R5', '_util:' + cname, what, '%s (%s next to %s)' % (cname, ', '.join('%s: %s' % x for x in inner), ', '.join(tables)))
+        else:
+            rep.fail('C09.R5', '_util:' + cname, what, '%s keeps self.%s (a %s, which rebuilds itself with new nodes when it is copied) next to the table self.%s and defines none of '
+                     '%s: copy.deepcopy() of a paragraph gives a key set whose table refers to nodes that are not in its list -- deleting a field from the copy leaves the key in '
+                     'the copy\'s order (dump() raises KeyError) and may unlink a node of the original' % (cname, inner[0][0], inner[0][1], tables[0], ' / '.join(PROT)),
+                     where=init.where)
+    if n2 < 1:
+        raise AnalysisError('no class that pairs a rebuilt container with a table found in _util (the key set changed?)')
     # the key objects of a paragraph: a class with non-empty __slots__ (and no __dict__) is not reducible by pickle protocols 0 and 1
     # unless it defines __reduce__ / __getstate__ ("a class that defines __slots__ without defining __getstate__ cannot be pickled")
     ci = mod.classes.get('_CaseInsensitiveString')
